@@ -1073,7 +1073,12 @@ func (c *controller) getImageForMessageRef(
 		imageFromProtoOptions = append(imageFromProtoOptions, bufimage.WithNoReparse())
 	case buffetch.MessageEncodingYAML:
 		// No need to apply validation - Images do not use protovalidate.
-		resolver, err := bootstrapResolver(protoencoding.NewYAMLUnmarshaler(nil), data)
+		// The first pass cannot resolve custom options yet (that is what it bootstraps), so it
+		// must not fail on them; the JSON and txtpb unmarshalers discard unknown fields by default.
+		resolver, err := bootstrapResolver(
+			protoencoding.NewYAMLUnmarshaler(nil, protoencoding.YAMLUnmarshalerWithDiscardUnknown()),
+			data,
+		)
 		if err != nil {
 			return nil, err
 		}
